@@ -8,7 +8,8 @@ package dawn
 // the complete download cache that the real resolver filled from the generated repositories, the root requirement
 // set and the reference build list (reachability/max on the generated tables).  The cache becomes
 // $HOME/.dawn/modules/cache, the root requirements a project's dawn.toml / .dawnconfig, and the project is loaded
-// with the package's own Load:
+// (or its dawn.toml next to a left-over .dawnconfig with other requirements), and the project is loaded with the
+// package's own Load:
 //
 //   - intact cache: Load succeeds and Project.buildList is the reference;
 //   - states of the cache in which the requirement graph cannot be walked -- an entry whose configuration file is
@@ -187,7 +188,7 @@ func TestVerifC10Load(t *testing.T) {
 	}
 	sort.Ints(ids)
 	base := t.TempDir()
-	nloads, nscen := 0, 0
+	nloads, nscen, both := 0, 0, 0
 	kinds := map[string]int{}
 	for _, id := range ids {
 		cdir := filepath.Join(exportDir, "case"+strconv.Itoa(id))
@@ -222,6 +223,29 @@ func TestVerifC10Load(t *testing.T) {
 		cfgName := []string{"dawn.toml", ".dawnconfig"}[rng.Intn(2)]
 		if err := project.WriteConfigFile(filepath.Join(rootDir, cfgName), &project.Config{Name: "root", Requirements: reqs}); err != nil {
 			t.Fatal(err)
+		}
+		// a root project that moved to dawn.toml and left its old .dawnconfig behind: the requirements it had then
+		// (all but one of today's; none at all; or bytes that are no configuration).  dawn.toml is the configuration.
+		if cfgName == "dawn.toml" && rng.Intn(2) == 0 {
+			cfgName = "dawn.toml next to a left-over .dawnconfig"
+			old := map[string]project.RequirementConfig{}
+			for i, r := range c.Root {
+				if i > 0 {
+					old[r[0]] = project.RequirementConfig{Path: r[1], Version: r[2]}
+				}
+			}
+			var err error
+			switch rng.Intn(3) {
+			case 0:
+				err = project.WriteConfigFile(filepath.Join(rootDir, ".dawnconfig"), &project.Config{Name: "root", Requirements: old})
+			case 1:
+				err = project.WriteConfigFile(filepath.Join(rootDir, ".dawnconfig"), &project.Config{Name: "old"})
+			default:
+				err = os.WriteFile(filepath.Join(rootDir, ".dawnconfig"), []byte("\x00\x01 = = [not toml\n"), 0o600)
+			}
+			if err != nil {
+				t.Fatal(err)
+			}
 		}
 		if err := os.WriteFile(filepath.Join(rootDir, "BUILD.dawn"), nil, 0o600); err != nil {
 			t.Fatal(err)
@@ -261,6 +285,14 @@ func TestVerifC10Load(t *testing.T) {
 			}
 			restoreCfg := func() error { return os.WriteFile(cfgPath, cfg, 0o600) }
 			aside := edir + ".aside"
+			// an entry with dawn.toml AND a left-over .dawnconfig: without its dawn.toml it would still be a well-formed
+			// project -- another one, which nothing can tell from a real one; "no configuration file left" removes both
+			other := filepath.Join(edir, ".dawnconfig")
+			otherBytes, otherErr := os.ReadFile(other)
+			hasOther := otherErr == nil && cfgPath != other
+			if hasOther {
+				both++
+			}
 			var faults []*c10lFault
 			for _, n := range c10lTorn(cfg) {
 				n := n
@@ -271,8 +303,23 @@ func TestVerifC10Load(t *testing.T) {
 			faults = append(faults,
 				&c10lFault{Entry: e, Kind: "configuration file is not a configuration", Detail: filepath.Base(cfgPath) + " holds other bytes",
 					apply: func() error { return os.WriteFile(cfgPath, []byte("\x00\x01 = = [not toml\n"), 0o600) }, undo: restoreCfg},
-				&c10lFault{Entry: e, Kind: "configuration file gone", Detail: filepath.Base(cfgPath) + " removed from the entry",
-					apply: func() error { return os.Remove(cfgPath) }, undo: restoreCfg},
+				&c10lFault{Entry: e, Kind: "configuration file gone", Detail: filepath.Base(cfgPath) + " removed from the entry (and the left-over .dawnconfig, if any)",
+					apply: func() error {
+						if hasOther {
+							if err := os.Remove(other); err != nil {
+								return err
+							}
+						}
+						return os.Remove(cfgPath)
+					},
+					undo: func() error {
+						if hasOther {
+							if err := os.WriteFile(other, otherBytes, 0o600); err != nil {
+								return err
+							}
+						}
+						return restoreCfg()
+					}},
 				&c10lFault{Entry: e, Kind: "entry is a file", Detail: "a regular file where the entry's directory should be",
 					apply: func() error {
 						if err := os.Rename(edir, aside); err != nil {
@@ -322,5 +369,6 @@ func TestVerifC10Load(t *testing.T) {
 		os.RemoveAll(home)
 		os.RemoveAll(rootDir)
 	}
-	emit(map[string]any{"t": "END", "cases": len(ids), "loads": nloads, "scenarios": nscen, "kinds": kinds})
+	emit(map[string]any{"t": "END", "cases": len(ids), "loads": nloads, "scenarios": nscen, "kinds": kinds,
+		"damaged_entries_with_both_configuration_files": both})
 }
